@@ -429,6 +429,24 @@ func (r *run) readInputs(ctx context.Context, h reader, c CtrlCfg) ([]Obs, error
 
 var errProbe = errors.New("probe failure")
 
+var probeFailures atomic.Int64
+
+// probeError: the failures of the probes alternate between a plain error, an error that wraps context.DeadlineExceeded (a
+// sub-operation of the controller timed out while the runtime is alive) and an error that wraps context.Canceled (the controller
+// cancelled a sub-operation of its own): a failure is a failure whatever it wraps, as long as the runtime has not been cancelled.
+func probeError() error {
+	switch probeFailures.Add(1) % 3 {
+	case 1:
+		return fmt.Errorf("probe sub-operation: %w", context.DeadlineExceeded)
+	case 2:
+		if os.Getenv("VERIF_CANCELED_FAILURES") == "1" {
+			return fmt.Errorf("probe sub-operation: %w", context.Canceled)
+		}
+	}
+
+	return errProbe
+}
+
 func (r *run) register(rtm interface {
 	RegisterController(controller.Controller) error
 	RegisterQController(controller.QController) error
@@ -450,7 +468,7 @@ func (r *run) register(rtm interface {
 				if g.failNext.Load() > 0 {
 					g.failNext.Add(-1)
 
-					return errProbe
+					return probeError()
 				}
 
 				if g.update.Load() && !g.updated.Load() && len(c.Alt) > 0 {
@@ -503,7 +521,7 @@ func (r *run) register(rtm interface {
 				if g.failNext.Load() > 0 {
 					g.failNext.Add(-1)
 
-					return errProbe
+					return probeError()
 				}
 
 				k, id := kindOf[ptr.Type()], idOf(ptr.ID())
